@@ -191,6 +191,23 @@ def handle (st : DState) (kw : String) (toks : List Nat) : DState × String :=
         match run modeTable toks with
         | none => (st, "bad-case")
         | some mt => (st, exceptLine (getStoreUpdates w mt) updatesToks)
+      | "ask" =>
+        -- what an entry-adding command pushes: `ask 0 name <audit>` / `ask 1 name <exemption>`;
+        -- answers the whole table afterwards (keys in table order, entries in list order)
+        match toks with
+        | 0 :: name :: rest =>
+          match run audit rest with
+          | none => (st, "bad-case")
+          | some a =>
+            let t := (w.store.ask (.audit name a)).locals.audits
+            (st, "ok " ++ show_ (t.length :: t.flatMap (fun (n, l) => n :: l.length :: l.flatMap auditFullToks)))
+        | 1 :: name :: rest =>
+          match run exemption rest with
+          | none => (st, "bad-case")
+          | some x =>
+            let t := (w.store.ask (.exemption name x)).exemptions
+            (st, "ok " ++ show_ (t.length :: t.flatMap (fun (n, l) => n :: l.length :: l.flatMap exemptionToks)))
+        | _ => (st, "bad-case")
       | "report" =>
         (st, exceptLine (resolve w) (fun r =>
           let enc (ls : List FailLine) : List Nat :=
